@@ -48,6 +48,7 @@ type hdOp struct {
 	Feat   []string `json:"feat,omitempty"`
 	Tok    int      `json:"tok,omitempty"` // internal: 0 valid, 1 random too short, 2 wrong token, 3 token of other random
 	Id     *hdIdRef `json:"id,omitempty"`
+	V2     *hdV2Tok `json:"v2,omitempty"` // protocol 2.0 hello with this token (Ht = "")
 
 	// join
 	R     int    `json:"r,omitempty"`  // room number, 0 = leave
@@ -378,6 +379,13 @@ func (r *hdRun) exec(o *hdOp) string {
 			hello["resumeid"] = id
 			term = fmt.Sprintf("OHello %d (HResume %s)", o.C, t)
 		default:
+			if o.V2 != nil {
+				token, signer := s.hdV2Token(o.B, o.U, o.V2)
+				hello["version"] = "2.0"
+				hello["auth"] = map[string]interface{}{"url": s.backendUrl(o.B) + "/ocs/v2.php/apps/spreed/api/v1/signaling/backend", "params": map[string]interface{}{"token": token}}
+				term = fmt.Sprintf("OHello %d (HV2 %d %d %s)", o.C, o.B, o.U, o.V2.coq(signer))
+				break
+			}
 			hello["auth"] = map[string]interface{}{"url": s.backendUrl(o.B) + "/ocs/v2.php/apps/spreed/api/v1/signaling/backend", "params": map[string]interface{}{"u": hdUser(o.U), "reject": o.Reject}}
 			term = fmt.Sprintf("OHello %d (HV1 %d %d %s)", o.C, o.B, o.U, coqBool(o.Reject))
 		}
